@@ -349,6 +349,17 @@ ADD8 = {
 for _id, _t in ADD8.items():
     P[_id]["text"] += " " + _t
 
+ADD9 = {
+ "C04": "A read buffer carried across the iterations of a request loop is not re-sliced to a run-time length inside it (shared with C05; rule read-buffer-full-size-per-request).",
+ "C05": "A read buffer carried across the iterations of a request loop is not re-sliced to a run-time length inside it (rule read-buffer-full-size-per-request).",
+ "C08": "C03/C04's datagram-buffer-per-connection is run for C08 as well (a datagram connection owns the bytes it was built from).",
+ "C17": "Values the decoder composes with | do not widen a signed narrower piece below the top position (rule value-composed-unsigned).",
+ "C18": "The parts of a multi-part identity record are hex-decoded from the offsets they were hex-encoded to (rule identity-record-layout).",
+ "C19": "The list of port strings walked for an entry is the decoded fields joined by append; it passes through no other call and no sort (rule port-strings-in-configured-order).",
+}
+for _id, _t in ADD9.items():
+    P[_id]["text"] += " " + _t
+
 PENDING = {
 }
 
